@@ -133,6 +133,19 @@ def check_case(case):
         if not err <= rel * scale:
             out.bad(f"axis swap: {name} of the transposed problem is not the transposed {name} ({err:.3e} > {rel * scale:.3e}; halo {hv}, modes {mh})")
 
+    # ---- ... and of the dispersion run re-centred on the tower (the shift along each axis is that axis' own: a non-square
+    #      domain tells the two apart)
+    if not fpm and nx % 2 == 0 and ny % 2 == 0:
+        out.label("axis-swap-on-recentred-dispersion")
+        cr1, fr1 = run(q0, prof, dom, mh, (im, jm), hv, recentre=True)
+        cr2, fr2 = run(q0.T.copy(), (v, u, Ky, Kx, Kz), (dom[1], dom[0]), (mh[1], mh[0]), (jm, im), hv, recentre=True)
+        for name, a, b in (("conc", cr1, cr2.transpose(0, 2, 1)), ("flux", fr1, fr2.transpose(0, 2, 1))):
+            scale = max(tol.maxabs(a), abs(bg), cs0 if name == "conc" else fs0)
+            err = tol.maxabs(a - b)
+            if not err <= rel * scale:
+                out.bad(f"axis swap of the re-centred dispersion run: {name} of the transposed problem is not the transposed {name} "
+                        f"({err:.3e} > {rel * scale:.3e}; domain {dom}, tower cell {(im, jm)}, halo {hv})")
+
     # ---- mirrors about the window centre with the case's halo: exact whenever the retained wavenumber set of the
     #      mirrored axis is symmetric (odd padded size, modes clamped to it), so no unpaired Nyquist component exists
     pxh, pyh, _ = gen.pad_widths(case, hv)
